@@ -1,4 +1,5 @@
 import BridgeVerif.Model.Json
+import BridgeVerif.Model.Regex
 /-!
 # MiniPy — a small, total, executable semantics for the Python subset the pure core of bridge_env is written in
 
@@ -135,6 +136,8 @@ deriving Repr, DecidableEq
 inductive Builtin
   | abs | len | int | str | tuple | range | enumerate | npOnes | isinstance | set
   | sorted | sortedDesc | join | items
+  | reMatch | reFullmatch | reSearch | reSub | reFindall      -- the `re` functions (Model/Regex.lean), optional IGNORECASE
+  | capitalize | lower | upper | replace | split | zip        -- `s.lower()`, `s.upper()`, `s.replace(a, b)`, `s.split(sep)`, `zip(a, b)`
   | isupper                                     -- `s.isupper()` (ASCII letters; the core applies it to one character)
   | jsonDumps | jsonLoads                       -- `json.dumps(v, indent=None)` / `json.loads(text)` (Model/Json.lean)
 deriving Repr, DecidableEq
@@ -307,8 +310,9 @@ def natDigits : Nat → Nat → List Char
   | 0, _ => ['0']
   | fuel + 1, n => if n < 10 then [Char.ofNat (48 + n)] else natDigits fuel (n / 10) ++ [Char.ofNat (48 + n % 10)]
 
+/-- `str(n)` for every integer (the fuel `|n| + 1` exceeds the number of digits) -/
 def intStr (n : Int) : List Char :=
-  if n < 0 then '-' :: natDigits 40 n.natAbs else natDigits 40 n.natAbs
+  if n < 0 then '-' :: natDigits (n.natAbs + 1) n.natAbs else natDigits (n.natAbs + 1) n.natAbs
 
 def parseNat? : List Char → Option Nat
   | [] => none
@@ -556,6 +560,40 @@ def sortF (r : Rec) (P : Program) : List Val → R (List Val)
   | [] => pure []
   | x :: xs => do insertSortedF r P x (← sortF r P xs)
 
+/-- ASCII `str.lower()` / `str.upper()` (the core applies them to protocol texts; non-ASCII letters are left alone —
+outside the modelled domain) -/
+def lowerC (c : Char) : Char := if 'A' ≤ c ∧ c ≤ 'Z' then Char.ofNat (c.toNat + 32) else c
+def upperC (c : Char) : Char := if 'a' ≤ c ∧ c ≤ 'z' then Char.ofNat (c.toNat - 32) else c
+
+def isPrefixC : List Char → List Char → Bool
+  | [], _ => true
+  | _ :: _, [] => false
+  | a :: as, b :: bs => a == b && isPrefixC as bs
+
+/-- `s.replace(a, b)` for non-empty `a`: left to right, non-overlapping -/
+def replaceAll (a b : List Char) : Nat → List Char → List Char
+  | 0, s => s
+  | _ + 1, [] => []
+  | f + 1, c :: r =>
+    if isPrefixC a (c :: r) then b ++ replaceAll a b f ((c :: r).drop a.length)
+    else c :: replaceAll a b f r
+
+/-- `s.split(sep)` for non-empty `sep` -/
+def splitOn (sep : List Char) : Nat → List Char → List Char → List (List Char)
+  | 0, acc, s => [acc.reverse ++ s]
+  | _ + 1, acc, [] => [acc.reverse]
+  | f + 1, acc, c :: r =>
+    if isPrefixC sep (c :: r) then acc.reverse :: splitOn sep f [] ((c :: r).drop sep.length)
+    else splitOn sep f (c :: acc) r
+
+/-- the match object of `re.match` & co. as the translated program sees it: an instance of the synthetic class `_Match`
+(given by the translator as a class value) whose `texts` are the group texts, group 0 first (`None` = did not take part) -/
+def matchVal (cls : Id) (textsField : Id) (s : List Char) (m : Re.MatchObj) : Val :=
+  let g0 : Val := match m.groupText s 0 with | some (some t) => .str t | _ => .none
+  let gs : List Val := (List.range m.groups.length).map fun i =>
+    match m.groupText s (i + 1) with | some (some t) => .str t | _ => .none
+  .obj cls [(textsField, .tuple (g0 :: gs))]
+
 def strsOf : List Val → Option (List (List Char))
   | [] => some []
   | .str s :: r => (strsOf r).map (s :: ·)
@@ -589,6 +627,9 @@ def builtinF (r : Rec) (P : Program) (b : Builtin) (vs : List Val) : R Val :=
   | .range, [v] => match asInt? v with
     | some n => pure (.tuple ((List.range n.toNat).map fun i => .int (Int.ofNat i)))
     | none => throw (.exc K.TypeError)
+  | .range, [a, b] => match asInt? a, asInt? b with
+    | some lo, some hi => pure (.tuple ((List.range (hi - lo).toNat).map fun i => .int (lo + Int.ofNat i)))
+    | _, _ => throw (.exc K.TypeError)
   | .enumerate, [v] => match iterItems P v with
     | some xs => pure (.tuple (xs.mapIdx fun i x => .tuple [.int (Int.ofNat i), x]))
     | none => throw (.exc K.TypeError)
@@ -605,6 +646,42 @@ def builtinF (r : Rec) (P : Program) (b : Builtin) (vs : List Val) : R Val :=
     | some ss => pure (.str (List.intercalate sep ss))
     | none => throw (.exc K.TypeError)
   | .items, [.dict kvs] => pure (.tuple (kvs.map fun (k, v) => .tuple [k, v]))
+  -- re.match / fullmatch / search (pattern, string, IGNORECASE?, the `_Match` class, the id of its `texts` attribute)
+  | .reMatch, [.str pat, .str s, .bool ic, .cls mc, .int tf] =>
+    match Re.pyMatch ic pat s with
+    | none => throw (.stuck 16)                        -- pattern outside the modelled subset
+    | some none => pure .none
+    | some (some m) => pure (matchVal mc tf.toNat s m)
+  | .reFullmatch, [.str pat, .str s, .bool ic, .cls mc, .int tf] =>
+    match Re.pyFullmatch ic pat s with
+    | none => throw (.stuck 16)
+    | some none => pure .none
+    | some (some m) => pure (matchVal mc tf.toNat s m)
+  | .reSearch, [.str pat, .str s, .bool ic, .cls mc, .int tf] =>
+    match Re.pySearch ic pat s with
+    | none => throw (.stuck 16)
+    | some none => pure .none
+    | some (some m) => pure (matchVal mc tf.toNat s m)
+  | .reSub, [.str pat, .str repl, .str s, .bool ic] =>
+    match Re.pySub ic pat repl s with
+    | none => throw (.stuck 16)
+    | some t => pure (.str t)
+  | .reFindall, [.str pat, .str s, .bool ic] =>
+    match Re.pyFindall ic pat s with
+    | none => throw (.stuck 16)
+    | some rows => pure (.tuple (rows.map fun row => match row with
+        | [t] => .str t
+        | ts => .tuple (ts.map .str)))
+  | .capitalize, [.str s] => pure (.str (match s with | [] => [] | c :: r => upperC c :: r.map lowerC))
+  | .lower, [.str s] => pure (.str (s.map lowerC))
+  | .upper, [.str s] => pure (.str (s.map upperC))
+  | .replace, [.str s, .str a, .str b] =>
+    if a.isEmpty then throw (.stuck 15) else pure (.str (replaceAll a b (s.length + 1) s))
+  | .split, [.str s, .str sep] =>
+    if sep.isEmpty then throw (.exc K.ValueError) else pure (.tuple ((splitOn sep (s.length + 1) [] s).map .str))
+  | .zip, [a, b] => match iterItems P a, iterItems P b with
+    | some xs, some ys => pure (.tuple ((xs.zip ys).map fun (x, y) => .tuple [x, y]))
+    | _, _ => throw (.exc K.TypeError)
   | .isupper, [.str s] =>
     -- str.isupper(): at least one cased character and no lower-case one (ASCII model)
     pure (.bool (s.any (fun c => decide ('A' ≤ c ∧ c ≤ 'Z')) && !s.any (fun c => decide ('a' ≤ c ∧ c ≤ 'z'))))
